@@ -11,17 +11,17 @@ NOTE = ("Trusted base: rustc nightly front end + MIR builder, the flacfacts expo
 
 # id -> (technique, text, design_ref)   (claimed properties)
 CLAIMED = {
-    "C12": ("ERRDISC: type-directed error-discipline analysis of every sink call site in MIR + PREFIX/short-circuit (first consumer of every sink-error Result is `?`/return)",
+    "C12": ("ERRDISC: type-directed error-discipline analysis of every sink call site in MIR + PREFIX/short-circuit (first consumer of every sink-error Result is `?`/return) + RESET on the scratch sinks and the C08 write effect (what a frame forwards from a scratch sink counts from the last clear in the same body)",
             "Every call site producing Result<_, S::Error|OutputError<S>> for a caller-supplied sink S is shown to "
             "propagate the error to the return place; none is unwrapped, swallowed or dead. Exhaustive over call "
             "sites, which is what 'for every k-th sink operation' quantifies over.", "4/C12"),
-    "C06": ("MPT/PAIR path rules over MIR CFGs with role-based anchors and wrapper summaries + ERRDISC in par",
+    "C06": ("MPT/PAIR path rules over MIR CFGs with role-based anchors and wrapper summaries + ERRDISC in par + WORKERS/non-zero + worker-count dataflow (the non-zero count sizes pool, spawns and stop tokens unmodified)",
             "Every return path of the par entry point (incl. every `?` edge) after the worker spawn passes the stop "
             "tokens, the worker joins and the hashing-thread stop+join; the worker returns every popped buffer; no "
             "SourceError/EncodeError is unwrapped or handed to a diverging closure. These are the per-path "
             "obligations behind 'for every fault position'. Liveness under interleavings is not decided.", "4/C06"),
     "C07": ("CHAIN + RANGE extraction from MIR vs documented ranges + ERRDISC on VerifyError + compile-fail "
-            "witnesses (TYPESTATE) for Verified<T>",
+            "witnesses (TYPESTATE) for Verified<T> + AGREE/predictor-order (shared with C02: configured order, stored order and residual warm-up agree)",
             "Exhaustive over the config type tree: every nested Verify field is verified and propagated by its "
             "parent, every extracted range equals the documented one (float range incl. NaN), Verified<T> is only "
             "constructed on the Ok edge of verify() or in an unsafe fn, and six violating client programs fail to "
@@ -38,7 +38,7 @@ CLAIMED = {
             "Narrow: every explicit panic construct, every division by a runtime value, every narrowing cast of a "
             "constructor argument and every zero-able block size in the constructor/verify universe is an obligation "
             "that is discharged structurally (dominating `?`-propagated range check) or reported. Overflow/shift/"
-            "index panics and the serialise->parse identity are not decided.", "4/C18"),
+            "The serialise->parse identity is not decided; 'exactly the number of bits it reports' is decided by the C08 effect rules (EFFECT write=count_bits, residual nest, UTF-8 length, extra bits), which this check runs as well.", "4/C18"),
     "C17": ("CASTCHECK + PARAMCHECK + dominance ORDER of verification before use + ERRDISC on VerifyError in the "
             "encoder entry points",
             "Every narrowing cast of a public API argument, every length/byte-width argument of a fill, the "
@@ -46,13 +46,13 @@ CLAIMED = {
             "the encoder modules is an obligation decided on the MIR (dominating `?`-propagated checks). Hangs and "
             "numeric behaviour of in-range values are not decided.", "4/C17"),
     "C09": ("GUARD: forward def-use tracking of candidate subframes with admission-idiom recognition and backward "
-            "slices of the guard operands",
+            "slices of the guard operands + the C08 EFFECT rules (the guards compare count_bits values, which are emitted sizes only if write == count_bits)",
             "Every non-verbatim candidate reaches the subframe chooser's result only through a `<` between its real "
             "BitRepr::count_bits and a bound derived from the verbatim baseline; the stereo assignment changes only "
             "under a `<` of real bit-count sums. A necessary condition for 'never larger than verbatim'; the "
             "saturating cost tables are not decided.", "4/C09"),
     "C04": ("MPT/dominance on the role-found stream encoders + WHO-CALLS/WHO-WRITES on the STREAMINFO bound fields "
-            "+ backward slices of the written values",
+            "+ backward slices of the written values + RANGE/block-size-argument + the C08 EFFECT rules (frame-size bounds are count_bits/8 in one mode and serialised bytes in the other)",
             "Bounds are initialised before the first frame in both encoders, every frame enters through the "
             "bound-updating entry, frame-size bounds come from count_bits/8, and the final short frame cannot lower "
             "the minimum block size (disjunctive rule accepting either repair style). Numeric values are not "
@@ -70,7 +70,7 @@ CLAIMED = {
             "written, and every operation of both in-memory sinks advances the recorded bit length by exactly the "
             "ideal count (the 'same length' clause). Bit-exactness of the shift/carry arithmetic is numerical and not decided.", "4/C11"),
     "C20": ("XCFG: normalised MIR fingerprints of the encode/serialise closure compared across feature "
-            "configurations + control-dependence obligations on the enumerated gates",
+            "configurations + control-dependence obligations on the enumerated gates + (configurations with `par`) the mode-agreement rules of C05, since the feature swaps the single-thread loop for the worker pipeline",
             "The set of bodies reachable from the encode and serialise entry points without entering a gate, and the "
             "MIR of each, are identical in {} / default+decode (quick) and in all four buildable feature sets "
             "(thorough); gates are entered only under the config flags verification forces off or that select the "
@@ -84,7 +84,7 @@ CLAIMED = {
             "bodies (shift (4-BPS)*8, little-endian constructor). Converted values are not decided.", "4/C14"),
     "C15": ("LAYOUT reader<->writer: field-width token sequences of every nom parser (EFFECT engine in reader mode) "
             "vs the event sequence of the matching BitRepr::write + TABLE reader<->writer on all code tables + AGREE "
-            "dataflow (which read feeds which constructor argument) + WIDTH type rule on the decoder accumulator",
+            "dataflow (which read feeds which constructor argument) + WIDTH type rule on the decoder accumulator + AGREE/predictor-order on the encoder's construction sites (shared with C02)",
             "Reader and writer agree on every field boundary, order and code for STREAMINFO, metadata header, frame "
             "header, all 16/16/8/16 code tables incl. extra bytes, subframe header and type codes with order "
             "formulas, raw samples, LPC parameters, residual (header, per-partition parameter, per-sample shape "
@@ -111,7 +111,7 @@ CLAIMED = {
             "Values (CRCs, Rice parameters, residual magnitudes) are not decided.", "4/C02"),
     "C03": ("MPT on the stream encoders + dataflow identity of the stored digest / count / format values (EFFECT-engine "
             "call log) + ORDER stop->join->read on the hashing thread + hashing-loop shape + FORWARD/SIBLING on the "
-            "Fill impls + STREAMINFO LAYOUT",
+            "Fill impls + STREAMINFO LAYOUT + PARAMCHECK on the digest contexts (a delivery of another byte width is refused before it is hashed)",
             "In both encoders every Ok return stores md5_digest() and len_hint.unwrap_or_else(total_samples()) of the "
             "very context every block was delivered to (the read destination is the (frame buffer, context) pair and "
             "the pair/reference impls forward both fills); the stream is created from the source's accessors; in par "
@@ -120,7 +120,7 @@ CLAIMED = {
             "width; STREAMINFO carries those fields in the RFC's positions. Digest values are not decided.", "4/C03"),
     "C05": ("TYPE-SHAPE on the collector + PAIR/dataflow in worker and feeder + SIBLING on the frame encoder incl. "
             "STREAMINFO read/write field disjointness + STATE-ENUM/RESET/PLAIN-STATE/KEY (no state survives a frame "
-            "encoding) + worker-count dataflow",
+            "encoding) + worker-count dataflow + SIBLING/block-loop (both block loops hand every block on and stop only on 0 samples or an error) + the C08 EFFECT rules (the modes measure frame sizes differently)",
             "Results are collected in Mutex<BTreeMap<usize,_>> keyed by the frame number and drained in order; number, "
             "buffer and key come from one locked buffer in the worker; the feeder numbers buffers under their lock "
             "with a counter stepping once per enqueue; both modes use the same frame encoder, which reads no "
@@ -131,7 +131,7 @@ CLAIMED = {
     "C08": ("EFFECT: bit-effect inference over the structured MIR of every BitRepr::write (loops summarised by "
             "induction-variable recognition, closures/scratch sinks inlined) compared as a normalised polynomial / "
             "case tree with the value returned by count_bits; TABLE for extra-bit writers; dataflow identities for "
-            "the cached sums and the precomputed bitstream",
+            "the cached sums (32-bit sum only under max * element-count < 2^32) and the precomputed bitstream; scratch sinks count from their last clear; C11 LENGTH/WORDCOUNT on the in-memory sinks that measure the bits",
             "For 12 BitRepr impls the inferred number of bits `write` appends on every Ok path equals the symbolic "
             "value of `count_bits`; for Residual the writer's loop nest is matched structurally and count_bits is "
             "its closed form over cached sums that the constructor computes from the stored vectors; UTF-8-like "
